@@ -25,15 +25,16 @@ import (
 // ---------------------------------------------------------------- cases
 
 type Case struct {
-	ID   int      `json:"id"`
-	Kind string   `json:"kind"`          // queue | deque | qshared | stress
-	Opt  string   `json:"opt,omitempty"` // queue: "" unlimited | h1 h2 h3 (hard limit) | quota (hard 3, soft 1, credit 1)
-	Init int      `json:"init"`          // items added/pushed (at the back) before the schedule
-	Vars []string `json:"vars"`          // one per iterator; queue: "q"; deque: fwd rev fwdb revb
-	Acts []string `json:"acts"`          // queue: A R C I<i> X<i> W<i>; deque: PB PF OF OB C I<i> X<i> W<i> (W = cancel between ctx check and cond.Wait)
-	Fin  string   `json:"fin,omitempty"` // close | cancel: how still-blocked iterators are released at the end
-	Sub  int      `json:"sub,omitempty"` // qshared: 0 = capacity waiter parks first, 1 = iterator parks first
-	Seed uint64   `json:"seed,omitempty"`
+	ID    int      `json:"id"`
+	Kind  string   `json:"kind"`            // queue | deque | qshared | stress
+	Opt   string   `json:"opt,omitempty"`   // queue: "" unlimited | h1 h2 h3 (hard limit) | quota (hard 3, soft 1, credit 1); deque: "" | c1 c2 c3 (capacity)
+	Init  int      `json:"init"`            // items added/pushed (at the back) before the schedule
+	Vars  []string `json:"vars"`            // one per iterator; queue: "q"; deque: fwd rev fwdb revb
+	Acts  []string `json:"acts"`            // queue: A R C I<i> X<i> W<i>; deque: PB PF OF OB C I<i> X<i> W<i> (W = cancel between ctx check and cond.Wait)
+	Fin   string   `json:"fin,omitempty"`   // close | cancel: how still-blocked iterators are released at the end
+	Build string   `json:"build,omitempty"` // deque: how the initial contents are made: "" PushBack | pf | fb | ff (Force pushes)
+	Sub   int      `json:"sub,omitempty"`   // qshared: 0 = capacity waiter parks first, 1 = iterator parks first
+	Seed  uint64   `json:"seed,omitempty"`
 }
 
 type Step struct {
@@ -45,8 +46,8 @@ type Step struct {
 
 func (s Step) String() string {
 	switch s.Act {
-	case "add", "pb", "pf":
-		return fmt.Sprintf("%s(%d)->%s", s.Act, s.V, s.Ob.Kind)
+	case "add", "pb", "pf", "fb", "ff":
+		return fmt.Sprintf("%s(%d)->%s%s", s.Act, s.V, s.Ob.Kind, s.Ob.Msg)
 	case "remove", "of", "ob":
 		if s.Ob.Kind == "some" {
 			return fmt.Sprintf("%s->%d", s.Act, s.Ob.V)
@@ -549,8 +550,17 @@ func coqSteps(kind string, steps []Step) string {
 			}
 		case "pb":
 			a, o = "DPushBack "+kit.Z(s.V), "ObAdd "+kit.Bool(s.Ob.Kind == "ok")
+			if s.Ob.Kind == "full" || s.Ob.Kind == "nocredit" {
+				a = "DPushRej " + kit.Z(s.V)
+			}
 		case "pf":
 			a, o = "DPushFront "+kit.Z(s.V), "ObAdd "+kit.Bool(s.Ob.Kind == "ok")
+			if s.Ob.Kind == "full" || s.Ob.Kind == "nocredit" {
+				a = "DPushRej " + kit.Z(s.V)
+			}
+		case "fb", "ff":
+			a = "DForcePush " + kit.Z(s.V) + " " + kit.Bool(s.Act == "fb") + " " + kit.Bool(s.Ob.Msg == "full")
+			o = "ObAdd " + kit.Bool(s.Ob.Kind == "ok")
 		case "remove", "of", "ob":
 			a = map[string]string{"remove": "QRemove", "of": "DPopFront", "ob": "DPopBack"}[s.Act]
 			o = "ObRem " + kit.OptZ(s.Ob.V, s.Ob.Kind == "some")
@@ -602,7 +612,7 @@ func execCase(run *kit.Run, c Case, verbose bool) {
 		f = runStress(c)
 	}
 	if verbose {
-		fmt.Printf("case %d kind=%s opt=%q vars=%v init=%d acts=%v fin=%s\n", c.ID, c.Kind, c.Opt, c.Vars, c.Init, c.Acts, c.Fin)
+		fmt.Printf("case %d kind=%s opt=%q build=%q vars=%v init=%d acts=%v fin=%s\n", c.ID, c.Kind, c.Opt, c.Build, c.Vars, c.Init, c.Acts, c.Fin)
 		for t, s := range steps {
 			fmt.Printf("  %2d %s\n", t, s)
 		}
@@ -628,7 +638,7 @@ func execCase(run *kit.Run, c Case, verbose bool) {
 			if s.Ob.Kind == "parked" || s.Ob.Kind == "window" {
 				nontriv = true
 			}
-		case "add", "remove", "pb", "pf", "of", "ob", "close", "cancel":
+		case "add", "remove", "pb", "pf", "fb", "ff", "of", "ob", "close", "cancel":
 			nOps++
 		}
 	}
@@ -642,7 +652,7 @@ func execCase(run *kit.Run, c Case, verbose bool) {
 			run.Count("obs/" + s.Ob.Kind)
 		}
 	}
-	key := fmt.Sprintf("%s|%s|%v|%d|%v|%s|%d|%d", c.Kind, c.Opt, c.Vars, c.Init, c.Acts, c.Fin, c.Sub, c.Seed)
+	key := fmt.Sprintf("%s|%s|%s|%v|%d|%v|%s|%d|%d", c.Kind, c.Opt, c.Build, c.Vars, c.Init, c.Acts, c.Fin, c.Sub, c.Seed)
 	run.Case(c.ID, c, term, key, nontriv)
 }
 
@@ -678,7 +688,7 @@ func main() {
 	run.Header = "From FunV Require Import Base.Tac Corr.C20_corr."
 	run.Footer = "Definition M := Eval vm_compute in mismatches cases.\nPrint M."
 	run.CaseType = "case"
-	run.Rule = "schedule-directed runs of the real Queue.Producer / Deque.Producer* (1-3 iterators): initial contents 0..3 x every string over {iterator step, Add/Push, Remove/Pop, Close} up to a length bound on unlimited queues/deques and on bounded queues (hard limit 1..3, quota+credit; every Add attempt has its own value, rejected Adds included), cancellation placed between the waiter's ctx check and cond.Wait (yield point pubsub.wait.before-cond-wait) (iterator steps split at the pubsub.Queue.Producer.unlocked yield point), random longer schedules incl. cancellation and several iterators, the shared-cond scenario, and randomized concurrent stress; distinct = distinct (kind, variants, init, schedule, release mode); non-trivial = some iterator step stopped in the unlocked window or parked"
+	run.Rule = "schedule-directed runs of the real Queue.Producer / Deque.Producer* (1-3 iterators): initial contents 0..3 x every string over {iterator step, Add/Push, Remove/Pop, Close} up to a length bound on unlimited queues/deques and on bounded queues (hard limit 1..3, quota+credit; every Add attempt has its own value, rejected Adds included), bounded deques (capacity 1..3) built and changed by ForcePushFront/ForcePushBack (full and not full) and pushes/pops at both ends, cancellation placed between the waiter's ctx check and cond.Wait (yield point pubsub.wait.before-cond-wait) (iterator steps split at the pubsub.Queue.Producer.unlocked yield point), random longer schedules incl. cancellation and several iterators, the shared-cond scenario, and randomized concurrent stress; distinct = distinct (kind, variants, init, schedule, release mode); non-trivial = some iterator step stopped in the unlocked window or parked"
 	pubsub.SetVerifYieldHook(yieldHook)
 
 	if run.Replay != "" {
@@ -739,6 +749,11 @@ func main() {
 		{Kind: "queue", Opt: "h1", Vars: Q, Acts: []string{"A", "I0", "I0", "I0", "A", "R", "A"}},
 		{Kind: "queue", Opt: "h2", Vars: Q, Acts: []string{"A", "A", "I0", "I0", "I0", "A", "I0", "R", "A", "I0"}},
 		{Kind: "queue", Opt: "quota", Vars: Q, Acts: []string{"A", "A", "A", "I0", "I0", "I0", "I0", "R", "R", "A"}},
+		// Force pushes on a full deque of capacity 1 / 2: evict at the far end, then insert; a fresh iterator afterwards
+		{Kind: "deque", Opt: "c1", Build: "fb", Vars: []string{"fwd", "rev", "fwdb"}, Init: 2, Acts: []string{"I0", "I0", "I1", "I1", "I2", "I2"}},
+		{Kind: "deque", Opt: "c1", Build: "ff", Vars: []string{"fwd", "rev", "revb"}, Init: 2, Acts: []string{"I0", "I0", "I1", "I1", "I2", "I2"}},
+		{Kind: "deque", Opt: "c2", Build: "fb", Vars: []string{"fwd", "rev"}, Init: 3, Acts: []string{"FF", "I0", "I1", "I0", "I1", "I0", "I1"}},
+		{Kind: "deque", Opt: "c1", Vars: []string{"fwdb"}, Acts: []string{"PB", "PB", "I0", "I0", "FB", "FB"}},
 		// the context ends between the waiter's ctx.Done() check and cond.Wait
 		{Kind: "queue", Vars: Q, Acts: []string{"I0", "W0"}},
 		{Kind: "queue", Vars: Q, Init: 1, Acts: []string{"I0", "I0", "W0"}},
@@ -774,6 +789,20 @@ func main() {
 		}
 	}
 
+	// bounded deques, contents built and changed by Force pushes (full and not full) and pushes/pops at both ends
+	fAlpha := []string{"I0", "PB", "PF", "FB", "FF", "OF", "OB", "C"}
+	for _, opt := range []string{"c1", "c2", "c3"} {
+		for _, v := range []string{"fwd", "rev", "fwdb", "revb"} {
+			for _, bld := range []string{"fb", "ff"} {
+				for init := 0; init <= 3; init++ {
+					enumerate(fAlpha, run.Pick(2, 3), func(acts []string) {
+						emit(Case{Kind: "deque", Opt: opt, Build: bld, Vars: []string{v}, Init: init, Acts: acts})
+					})
+				}
+			}
+		}
+	}
+
 	// ---- random longer schedules: several iterators, cancellation
 	nq := run.Pick(500, 20000)
 	for k := 0; k < nq; k++ {
@@ -800,7 +829,7 @@ func main() {
 		}
 		emit(Case{Kind: "queue", Opt: opt, Vars: vars, Init: r.Intn(4), Acts: randActs(r, alpha, 4, 14)})
 	}
-	nd := run.Pick(700, 20000)
+	nd := run.Pick(1200, 30000)
 	dv := []string{"fwd", "rev", "fwdb", "revb"}
 	for k := 0; k < nd; k++ {
 		r := run.Rand.Fork()
@@ -823,7 +852,15 @@ func main() {
 		if r.Chance(1, 3) {
 			alpha = append(alpha, "W"+strconv.Itoa(r.Intn(ni)))
 		}
-		emit(Case{Kind: "deque", Vars: vars, Init: r.Intn(4), Acts: randActs(r, alpha, 4, 14)})
+		opt, bld := "", ""
+		if r.Chance(2, 3) {
+			opt = []string{"c1", "c2", "c3"}[r.Intn(3)]
+		}
+		if r.Chance(2, 3) {
+			alpha = append(alpha, "FB", "FF")
+			bld = []string{"", "pf", "fb", "ff"}[r.Intn(4)]
+		}
+		emit(Case{Kind: "deque", Opt: opt, Build: bld, Vars: vars, Init: r.Intn(4), Acts: randActs(r, alpha, 4, 14)})
 	}
 
 	// ---- randomized concurrent stress (safety oracles only)
